@@ -105,6 +105,13 @@ pub fn generate(rng: &mut Rng, thorough: bool) -> Vec<String> {
                     let dd = if rng.chance(1, 2) { "-".to_string() } else { rng.pick(&[1i128, 5, 28, 29, 30, 31, 32, 0]).to_string() };
                     let ov = rng.pick(&["constrain", "reject", "-"]);
                     v.push(format!("cal_with {cal} {y} {m} {d} {era} {ey} {year} {month} {code} {dd} {ov}"));
+                    if rng.chance(1, 2) {
+                        v.push(format!("cal_dtwith {cal} {y} {m} {d} {era} {ey} {year} {month} {code} {dd} {ov}"));
+                    }
+                    if cal != "iso8601" && day > -100_000_001 + 40 {
+                        v.push(format!("cal_ymwith {cal} {y} {m} {d} {era} {ey} {year} {month} {code} {ov}"));
+                        v.push(format!("cal_ymfields {cal} {y} {m} {d}"));
+                    }
                 }
                 _ => {}
             }
@@ -275,6 +282,37 @@ pub fn eval(t: &[&str]) -> Option<String> {
                 d.with(p, if t[11] == "-" { None } else { Some(overflow(t[11])) })
             }),
             |d| format!("{} {} {}", d.iso_year(), d.iso_month(), d.iso_day()),
+        ),
+        "cal_dtwith" => render(
+            // the same through PlainDateTime::with (date fields only; the time of day is kept)
+            iso(i(t[2]), i(t[3]), i(t[4]), t[1]).and_then(|d| {
+                let dt = d.to_plain_date_time(Some(temporal_rs::PlainTime::try_new(12, 30, 0, 0, 0, 0)?))?;
+                let mut p = partial(d.calendar(), t[5], t[6], t[7], t[8], t[9], t[10])?;
+                p.calendar = Calendar::default();
+                let mut pdt = temporal_rs::partial::PartialDateTime::default();
+                pdt.date = p;
+                dt.with(pdt, if t[11] == "-" { None } else { Some(overflow(t[11])) })
+            }),
+            |d| format!("{} {} {} {} {}", d.iso_year(), d.iso_month(), d.iso_day(), d.hour(), d.minute()),
+        ),
+        "cal_ymwith" => render(
+            // the year-month of the date, updated from a partial record (year designation / month / month code)
+            iso(i(t[2]), i(t[3]), i(t[4]), t[1]).and_then(|d| {
+                let ym = d.to_plain_year_month()?;
+                let mut p = partial(d.calendar(), t[5], t[6], t[7], t[8], t[9], "-")?;
+                p.calendar = Calendar::default();
+                ym.with(p, if t[10] == "-" { None } else { Some(overflow(t[10])) })
+            }),
+            |ym| ym.to_ixdtf_string(temporal_rs::options::DisplayCalendar::Never),
+        ),
+        "cal_ymfields" => render(
+            iso(i(t[2]), i(t[3]), i(t[4]), t[1]).and_then(|d| d.to_plain_year_month()),
+            |ym| format!(
+                "{} {} {} {} {} {} {} {} {}",
+                ym.era().map(|e| e.to_string()).unwrap_or("-".into()),
+                ym.era_year().map(|e| e.to_string()).unwrap_or("-".into()),
+                ym.year(), ym.month(), ym.month_code().as_str(), ym.days_in_month(), ym.days_in_year(), ym.months_in_year(), ym.in_leap_year() as u8
+            ),
         ),
         "cal_withid" => {
             // applying a date's own day to itself; a failure is marked with the circumstance of the date
